@@ -18,6 +18,8 @@ CONSTANTS
   LateEnqueue = FALSE
   ContinueAfterOversize = FALSE
   UnknownKills = TRUE
+  Faults = FALSE
+  Sticky = FALSE
 INVARIANTS EndsOnlyByBadFrame
 
 VIEW View
